@@ -22,8 +22,16 @@ Join(ls) == IF ls = <<>> THEN "" ELSE JoinFrom(ls, 2, ls[1])
 RECURSIVE Terminated(_, _, _)
 Terminated(ls, i, acc) == IF i > Len(ls) THEN acc ELSE Terminated(ls, i + 1, acc \o ls[i] \o "\n")
 
+(* a text atom may hold line feeds (a multi-line string, a node under `@typstyle off`): the renderer treats it as one
+   piece of text, `strip_trailing_whitespace` sees its lines one by one *)
+RECURSIVE SplitNL(_, _, _, _)
+SplitNL(s, i, from, acc) == IF i > Len(s) THEN Append(acc, SubSeq(s, from, Len(s)))
+                            ELSE IF SubSeq(s, i, i) = "\n" THEN SplitNL(s, i + 1, i + 1, Append(acc, SubSeq(s, from, i - 1)))
+                            ELSE SplitNL(s, i + 1, from, acc)
+RECURSIVE Flatten(_, _, _)
+Flatten(ls, i, acc) == IF i > Len(ls) THEN acc ELSE Flatten(ls, i + 1, acc \o SplitNL(ls[i], 1, 1, <<>>))
 RenderOk(e, r) == Join(Render(e.doc, r.w)) = r.raw
-StripOk(e, r)  == Terminated(Format(e.doc, r.w), 1, "") = r.out
+StripOk(e, r)  == Terminated(Strip(Flatten(Render(e.doc, r.w), 1, <<>>)), 1, "") = r.out
 Failing(e) == IF e.ev # "doc" THEN {}
               ELSE (IF "RenderConforms" \in Rels /\ \E i \in 1..Len(e.rs) : ~RenderOk(e, e.rs[i]) THEN {"RenderConforms"} ELSE {})
                    \cup (IF "StripConforms" \in Rels /\ \E i \in 1..Len(e.rs) : RenderOk(e, e.rs[i]) /\ ~StripOk(e, e.rs[i])
